@@ -159,10 +159,22 @@ func genAttrKey(r *rand.Rand, i int) string {
 
 func obj(members []string) string { return "{" + strings.Join(members, ",") + "}" }
 
+// an attribute value "\x00b:true" / "\x00i:-12" stands for a bool / int value (the wire description keeps the marker)
+func attrValue(v string) *otlpCommon.AnyValue {
+	if strings.HasPrefix(v, "\x00b:") {
+		return &otlpCommon.AnyValue{Value: &otlpCommon.AnyValue_BoolValue{BoolValue: v[3:] == "true"}}
+	}
+	if strings.HasPrefix(v, "\x00i:") {
+		n, _ := strconv.ParseInt(v[3:], 10, 64)
+		return &otlpCommon.AnyValue{Value: &otlpCommon.AnyValue_IntValue{IntValue: n}}
+	}
+	return &otlpCommon.AnyValue{Value: &otlpCommon.AnyValue_StringValue{StringValue: v}}
+}
+
 func kvAttrs(l [][2]string) []*otlpCommon.KeyValue {
 	var out []*otlpCommon.KeyValue
 	for _, kv := range l {
-		out = append(out, &otlpCommon.KeyValue{Key: kv[0], Value: &otlpCommon.AnyValue{Value: &otlpCommon.AnyValue_StringValue{StringValue: kv[1]}}})
+		out = append(out, &otlpCommon.KeyValue{Key: kv[0], Value: attrValue(kv[1])})
 	}
 	return out
 }
@@ -300,6 +312,12 @@ func genProto(r *rand.Rand, id int) (PCase, []pbody) {
 				v := genField(r)
 				if !utf8.ValidString(v) {
 					v = "v"
+				}
+				switch r.Intn(6) {
+				case 0:
+					v = "\x00b:" + []string{"true", "false"}[r.Intn(2)]
+				case 1:
+					v = "\x00i:" + []string{"0", "7", "-12", "9223372036854775807", "-9223372036854775808", "1000000"}[r.Intn(6)]
 				}
 				l = append(l, [2]string{genAttrKey(r, off+i%2), v})
 			}
